@@ -180,6 +180,63 @@ Section Digest.
       files_with (r7_base c) (rs_md st) (report_text7 c st) (export_file7 c st)).
 End Digest.
 
+(* ------------------------------------------------------------------ (4) Git storage *)
+(* a repository as Store.v sees it (commits, trees, references) with the contents of its blobs, and - taken from
+   the git command line, not modelled - the 40-digit id and the message title (gix message().title) of every commit *)
+Record git_world : Type := mkGitWorld {
+  gw_repo : Store.repo;
+  gw_blobs : list (N * list N);             (* blob identity -> text *)
+  gw_hex : list (N * list N);               (* commit identity -> its id as printed *)
+  gw_title : list (N * list N) }.           (* commit identity -> title of its message *)
+(* --input.git.ref / --input.git.commit and --input.git.dir: the selector as Store.resolve reads it (an abbreviated
+   commit id is resolved by git: the identity is an input), its text as given, the directory as components and as given *)
+Record git_sel : Type := mkGitSel {
+  gs_sel : Store.selector; gs_text : list N; gs_dir : list (list N); gs_dir_text : list N }.
+
+Fixpoint tbl_get (tbl : list (N * list N)) (k : N) : list N :=
+  match tbl with
+  | [] => []
+  | (k', v) :: r => if N.eqb k k' then v else tbl_get r k
+  end.
+Definition entry_file (gw : git_world) (e : Store.entry) : input_file := (Store.en_path e, tbl_get (gw_blobs gw) (Store.en_blob e)).
+Definition git_files (gw : git_world) (es : list Store.entry) : list input_file := map (entry_file gw) es.
+Definition by_commit (s : Store.selector) : bool := match s with Store.ByCommit _ => true | Store.ByRef _ => false end.
+(* the GitInputReference of the run *)
+Definition git_reference7 (c : run7) (gw : git_world) (gs : git_sel) (id : N) : MetaText.git_in :=
+  MetaText.mkGitIn (by_commit (gs_sel gs)) (gs_text gs) (tbl_get (gw_hex gw) id) (gs_dir_text gs) (r7_ext c)
+                   (tbl_get (gw_title gw) id).
+Definition E_git : N := 51%N.
+
+(* a checkout of the tree t, seen from the directory d: the regular files below d, paths relative to d *)
+Definition checkout (gw : git_world) (d : list (list N)) (t : list Store.entry) : list input_file :=
+  map (fun e => (skipn (length d) (Store.en_path e), tbl_get (gw_blobs gw) (Store.en_blob e)))
+      (filter (fun e => Store.is_regular (Store.en_kind e) && Store.comps_prefix d (Store.dir_of (Store.en_path e))) t).
+
+Section DigestGit.
+  Variable H : list N -> list N.
+
+  (* parser::git_to_txns in place of paths_to_txns: the commit is resolved, its tree walked (a link anywhere is an
+     error), the journal files parsed and accepted one by one, TxnData::from with the Git metadata item *)
+  Definition run7g_prepare (c : run7) (gw : git_world) (gs : git_sel) (ptext : option (list N)) : res run_state :=
+    let b := r7_base c in
+    res_bind (price_setup b ptext) (fun pr =>
+    match Store.load_git (gw_repo gw) (gs_sel gs) (gs_dir gs) (r7_ext c) with
+    | None => Err E_git
+    | Some (id, es) =>
+        let files := git_files gw es in
+        res_bind (load_dir c files) (fun js0 =>
+        res_bind (audit_uuids (rc_audit b) js0) (fun js =>
+        res_bind (chart_gate c (fst pr) files) (fun _ =>
+        prepare_with H (Some (git_reference7 c gw gs id)) b pr js)))
+    end).
+  Definition run7g_console (c : run7) (gw : git_world) (gs : git_sel) (ptext : option (list N)) : res (list N) :=
+    res_bind (run7g_prepare c gw gs ptext) (fun st => console_with (r7_base c) (rs_md st) (report_text7 H c st)).
+  Definition run7g_files (c : run7) (gw : git_world) (gs : git_sel) (ptext : option (list N))
+    : res (list (list N * list N) * list N) :=
+    res_bind (run7g_prepare c gw gs ptext) (fun st =>
+      files_with (r7_base c) (rs_md st) (report_text7 H c st) (export_file7 H c st)).
+End DigestGit.
+
 (* ------------------------------------------------------------------ the old fragment *)
 (* a literal string as a pattern: the concatenation of its characters *)
 Fixpoint lit_re (s : list N) : re :=
